@@ -482,6 +482,34 @@ def perform_graph(q, par, ch, idx):
                                        "lines": lines[:14], "expected": exp[:14]})
             if list(ex) != lines:
                 res["bad"].append({"kind": kind, "prop": prop, "direct": True, "what": "second iteration differs"})
+            if variant in (0, 2) and tok["nodes"]:
+                # an exporter object holds no verdicts of its own: when the filter's answer for a node changes between two
+                # iterations, the second iteration is what a fresh exporter produces now
+                victim = tok["nodes"][-1]
+                fls.discard(victim)
+                try:
+                    second = list(ex)
+                    fresh = list(cls(start, **kw, **ckw))
+                finally:
+                    fls.add(victim)
+                if (_canon(second, kind) if kind != "dot" else second) != (_canon(fresh, kind) if kind != "dot" else fresh):
+                    res["bad"].append({"kind": kind, "prop": prop, "direct": True, "what": "re-iterating an exporter after the filter's verdict for a node changed differs from a fresh exporter",
+                                       "lines": second[:10], "expected": fresh[:10]})
+                # a tree of nodes with their own __eq__/__hash__ is exported like a tree of plain nodes (identifiers per node object)
+                advcls = N.FAMILIES["adv:alwayseq:mixin"]["cls"]
+                twins = {l: advcls(name=names[l]) for l in par}
+                for pp, kids in ch.items():
+                    for c in kids:
+                        twins[c].parent = twins[pp]
+                back = {id(o): l for l, o in twins.items()}
+                akw = dict(filter_=lambda n: back[id(n)] in fls, stop=lambda n: back[id(n)] in sts, maxlevel=ml)
+                try:
+                    advlines = list(cls(twins[q["s"]], **akw, **ckw))
+                    if _canon(advlines, kind) != _canon(lines, kind):
+                        res["bad"].append({"kind": kind, "prop": prop, "direct": True, "what": "export of a tree of always-equal nodes differs from the export of plain nodes",
+                                           "lines": advlines[:10], "expected": lines[:10]})
+                except Exception as e:  # noqa
+                    res["bad"].append({"kind": kind, "prop": prop, "direct": True, "what": "export of a tree of always-equal nodes raised %s: %s" % (type(e).__name__, str(e)[:100])})
             if kind != "dot" and variant == 0 and not fls.symmetric_difference(par) and not sts and tok["nodes"]:
                 # default identifiers stay distinct per node and stable across iterations of ONE exporter, also when the
                 # tree grows between two iterations and when two iterations are interleaved
@@ -540,6 +568,8 @@ def _canon(lines, kind):
             seen[t] = "ID%d" % len(seen)
         return seen[t]
 
+    if kind == "dot":
+        return list(lines)
     if kind == "unique":
         return [re.sub(r'"0x[0-9a-f]+"|"[^" ]+"(?= (?:->|--|\[)|;)', ren, l) for l in lines]
     return [re.sub(r'^( *)(\w+)', lambda m: m.group(1) + ren(re.match(r'\w+', m.group(2))), l) for l in lines]
